@@ -78,6 +78,9 @@ class C07(Prop):
         '(c) is judged on inputs inside the C08 domain (no NUL/DEL, '
         'brace-delimited signature arguments)',
     )
+    probes = ('read', 'reach')
+    probed_every = 12
+    reach_required = ['reader.read_env', 'reader.read_arg', 'reader.unclosed_env_handler', 'reader.read_args']
     min_nontrivial = 2000
     budget_s = {'quick': 300, 'thorough': 3600}
     exhaustive = {'quick': 'all strings of <= 2 tokens over the 64-token alphabet',
